@@ -169,6 +169,10 @@ class NodeLib(LibBase):
     def bind_params(self, cls, fname, fnode, con, st):
         args = {}
         for (nm, kind, default) in con.params:
+            if nm in getattr(con, "argmap", {}):
+                nm2 = con.argmap[nm]
+                args[nm2] = args[nm] = V.mk_value("arg." + nm, kind)
+                continue
             if kind[0] == "env":
                 args[nm] = EnvRef()
             elif kind[0] == "self":
